@@ -195,6 +195,32 @@ class C19(Prop):
                 rec["sim_runs"] += 1
                 for k, d in self.judge_call(ro):
                     found.append((k, "[real pool] " + d, dict(kind="call", case=c)))
+        # later calls in the same process must not reach back into the objects of this call
+        later = []
+        for j in range(2):
+            c2 = workload.clone(case)
+            c2["np_seed"] = (case["np_seed"] + 1 + j) % (2 ** 32)
+            if j == 0:
+                # same shapes (same number of points), other values and forms
+                c2["args"]["label_switching_cost"] = dict(form="float", value=r.choice([0.0, 5.0, 50.0]), seed=0)
+                c2["args"]["sparsity_weight"] = dict(form="float", value=r.choice([0.05, 0.5]), seed=0)
+            else:
+                c2["args"]["label_switching_cost"] = dict(case["args"]["label_switching_cost"], value=7.0, layout=None)
+                c2["args"]["sparsity_weight"] = dict(case["args"]["sparsity_weight"], value=0.3, layout=None)
+            c2["data"]["layout"] = "C"
+            o2 = runner.execute(c2, owned=True)
+            rec.absorb(o2)
+            later.append(c2)
+            rec.probe("later_calls")
+            ch = runner.owned_recheck(out)
+            if ch:
+                which, what = ch[0]
+                found.append((f"C19:caller_data_modified_later:{which.rstrip('0123456789')}",
+                              f"caller-owned {which} of an earlier call changed ({what}) during a later call in the same "
+                              f"process", dict(kind="sequence", case=freeze_decisions(case, out), later=list(later))))
+                break
+            for k, d in self.judge_call(o2):
+                found.append((k, "[later call] " + d, dict(kind="call", case=freeze_decisions(c2, o2))))
         seen = set()
         for k, d, rp in found:
             if k in seen:
@@ -219,6 +245,16 @@ class C19(Prop):
             po = runner.execute(self.plain(case), record=False)
             if not out.ok and po.ok:
                 f.append(("C19:readonly_or_layout_fails", f"raises {out.exc[0]} with the layouts, completes with plain copies"))
+        elif rp["kind"] == "sequence":
+            out = runner.execute(case, owned=True)
+            for c2 in rp["later"]:
+                runner.execute(c2, owned=True)
+                ch = runner.owned_recheck(out)
+                if ch:
+                    which, what = ch[0]
+                    f.append((f"C19:caller_data_modified_later:{which.rstrip('0123456789')}",
+                              f"caller-owned {which} of an earlier call changed ({what}) during a later call"))
+                    break
         elif rp["kind"] == "direct":
             out = runner.execute(case, owned=True)
             f = self.direct_api(out, Record()) if out.ok else []
